@@ -12,13 +12,15 @@ Local Open Scope Z_scope.
 Definition zg `{Countable K} (m : gmap K Z) (k : K) : Z := default 0 (m !! k).
 
 (** actors: 0 O (origin) 1 P 2-4 contracts 5 staking precompile 6 distribution
-    precompile 7 bonded pool 8 not-bonded pool 9 distribution module 10 evm module 11 fee collector *)
+    precompile 7 bonded pool 8 not-bonded pool 9 distribution module 10 evm module 11 fee collector
+    12 ICS-20 precompile 13 escrow account of the transfer channel *)
 Definition A_BONDED : N := 7.
 Definition A_NOTBONDED : N := 8.
 Definition A_DISTR : N := 9.
 Definition A_EVM : N := 10.
-Definition blocked (a : N) : bool := N.leb 5 a.     (* precompile and module addresses cannot receive coins *)
-Definition is_precompile (a : N) : bool := N.eqb a 5 || N.eqb a 6.
+Definition A_ESCROW : N := 13.
+Definition blocked (a : N) : bool := N.leb 5 a && negb (N.eqb a A_ESCROW).     (* precompile and module addresses cannot receive coins *)
+Definition is_precompile (a : N) : bool := N.eqb a 5 || N.eqb a 6 || N.eqb a 12.
 
 (** * Cosmos side *)
 Record world := mkworld {
@@ -30,7 +32,7 @@ Record world := mkworld {
   wdaddr : gmap N N;                (* withdraw address, default self *)
   pending : gmap N Z;               (* withdrawable (truncated) rewards: oracle input *)
   broken : gset N;                  (* delegations whose distribution starting info was deleted by a failed call *)
-  grants : gmap (N * bool) (option Z);  (* (grantee, delegate?) -> limit, granter is the origin *)
+  grants : gmap (N * N) (option Z);  (* (grantee, kind: 0 undelegate 1 delegate 2 ICS-20 transfer) -> limit, granter is the origin *)
   store : gmap (N * Z) Z
 }.
 
@@ -177,7 +179,8 @@ Definition commit (order : list N) (W : world) (D : sdb) : world * sdb * bool :=
 (** * Precompiles *)
 Inductive pcall :=
 | PDelegate (who : N) (amt : Z) | PUndelegate (who : N) (amt : Z)
-| PWithdraw (who : N) | PSetWithdraw (who to : N) | PClaim (who : N).
+| PWithdraw (who : N) | PSetWithdraw (who to : N) | PClaim (who : N)
+| PTransfer (who : N) (amt : Z).
 
 Inductive outcome := Ok | Fail.
 
@@ -195,17 +198,17 @@ Definition restart_info (W : world) (who : N) : world :=
   w_upd W (deleg W) (unbond W) (pending W) (broken W ∖ {[who]}).
 
 (** grant needed when the caller is not the origin; returns the limit *)
-Definition check_grant (W : world) (c : N) (is_del : bool) (amt : Z) : option (option Z) :=
-  match grants W !! (c, is_del) with
+Definition check_grant (W : world) (c : N) (kind : N) (amt : Z) : option (option Z) :=
+  match grants W !! (c, kind) with
   | None => None
   | Some None => Some None
   | Some (Some l) => if l <? amt then None else Some (Some l)
   end.
-Definition spend_grant (W : world) (c : N) (is_del : bool) (lim : option Z) (amt : Z) : world :=
+Definition spend_grant (W : world) (c : N) (kind : N) (lim : option Z) (amt : Z) : world :=
   match lim with
   | None => W
   | Some l =>
-      let g := if l - amt =? 0 then delete (c, is_del) (grants W) else <[(c, is_del) := Some (l - amt)]> (grants W) in
+      let g := if l - amt =? 0 then delete (c, kind) (grants W) else <[(c, kind) := Some (l - amt)]> (grants W) in
       mkworld (bank W) (supply W) (wexists W) (deleg W) (unbond W) (wdaddr W) (pending W) (broken W) g (store W)
   end.
 
@@ -244,24 +247,38 @@ Definition native_setwithdraw (W : world) (who to : N) : world * outcome :=
   else (mkworld (bank W) (supply W) (wexists W) (deleg W) (unbond W) (<[who := to]> (wdaddr W)) (pending W) (broken W)
                 (grants W) (store W), Ok).
 
+(** native MsgTransfer of the bond denomination over the open channel: the coins are
+    escrowed (nothing changes when the sender cannot pay) *)
+Definition native_transfer (W : world) (who : N) (amt : Z) : world * outcome :=
+  if amt <=? 0 then (W, Fail) else
+  if zg (bank W) who <? amt then (W, Fail) else
+  let W1 := move W who A_ESCROW amt in
+  (mkworld (bank W1) (supply W1) (wexists W1 ∪ {[A_ESCROW]}) (deleg W1) (unbond W1) (wdaddr W1) (pending W1) (broken W1)
+           (grants W1) (store W1), Ok).
+
 (** the precompile body after the flush: identity rule, grant, native message,
     grant update, event, mirror.  [c] caller, [o] origin. *)
 Definition pre_body (W : world) (D : sdb) (o c : N) (p : pcall) : world * sdb * outcome :=
   match p with
-  | PDelegate who amt | PUndelegate who amt =>
-      let is_del := match p with PDelegate _ _ => true | _ => false end in
+  | PDelegate who amt | PUndelegate who amt | PTransfer who amt =>
+      let kind := match p with PDelegate _ _ => 1%N | PTransfer _ _ => 2%N | _ => 0%N end in
       if amt <=? 0 then (W, D, Fail) else
       if negb (N.eqb c who) && negb (N.eqb o who) then (W, D, Fail) else
-      let lim := if N.eqb c o then Some None else check_grant W c is_del amt in
+      let lim := if N.eqb c o then Some None else check_grant W c kind amt in
       match lim with
       | None => (W, D, Fail)
       | Some l =>
-          let '(W1, oc) := if is_del then native_delegate W who amt else native_undelegate W who amt in
+          let '(W1, oc) := match p with
+                           | PDelegate _ _ => native_delegate W who amt
+                           | PTransfer _ _ => native_transfer W who amt
+                           | _ => native_undelegate W who amt
+                           end in
           match oc with
           | Ok =>
-              let W2 := if N.eqb c o then W1 else spend_grant W1 c is_del l amt in
+              let W2 := if N.eqb c o then W1 else spend_grant W1 c kind l amt in
               let D1 := add_log D in
-              let D2 := if is_del && N.eqb c who then sub_bal W2 D1 c amt else D1 in
+              (* the mirror: the caller's cached balance follows the bank only when the caller is the payer *)
+              let D2 := if negb (N.eqb kind 0) && N.eqb c who then sub_bal W2 D1 c amt else D1 in
               (W2, D2, Ok)
           | _ => (W1, D, oc)
           end
@@ -286,7 +303,7 @@ Definition pre_body (W : world) (D : sdb) (o c : N) (p : pcall) : world * sdb * 
   end.
 
 Definition pre_target (p : pcall) : N :=
-  match p with PDelegate _ _ | PUndelegate _ _ => 5%N | _ => 6%N end.
+  match p with PDelegate _ _ | PUndelegate _ _ => 5%N | PTransfer _ _ => 12%N | _ => 6%N end.
 
 (** * go-ethereum's Call over this StateDB *)
 Definition st := (world * sdb)%type.
@@ -367,7 +384,7 @@ Definition run_tx (order : list N) (W0 : world) (value : Z) (t : top) : world * 
 (** * cases and observations, as the harness prints them *)
 Record ecase := mkecase {
   e_bal : list Z; e_deleg : list Z; e_reward : list Z; e_wd : list N;
-  e_grants : list (N * bool * option Z); e_order : list N; e_slots : list (N * Z);
+  e_grants : list (N * N * option Z); e_order : list N; e_slots : list (N * Z);
   e_value : Z; e_top : top; e_wd_disabled : bool
 }.
 Record eobs := mkeobs {
@@ -394,7 +411,7 @@ Definition world_of (c : ecase) (mod_bal : list Z) : world :=
           (list_to_map (map (fun '(g, d, l) => ((g, d), l)) (e_grants c))) ∅.
 
 Definition observe (c : ecase) (W : world) (ok : bool) : eobs :=
-  mkeobs ok (map (fun a => zg (bank W) a) (nseq 12)) (supply W)
+  mkeobs ok (map (fun a => zg (bank W) a) (nseq 14)) (supply W)
          (map (fun a => zg (deleg W) a) (nseq 5)) (map (fun a => zg (unbond W) a) (nseq 5))
          (map (fun a => Z.of_N (withdraw_addr W a)) (nseq 5))
          (flat_map (fun '(a, k) => let v := zg (store W) (a, k) in if v =? 0 then [] else [(a, k, v)]) (e_slots c)).
